@@ -590,11 +590,11 @@ proof fn lemma_sinit(n: u128, d: u64, d_ctlz: u32, high: u64, sr: u32, q: u128, 
 SLOW = r'''
 fn div128::slow_u128_divrem
   sub /\(d\.leading_zeros\(\)\)/ => /(u64_leading_zeros(d))/
-  sub /\(n >> 64\) as u64/ => /#[verifier::truncate] ((n >> 64) as u64)/
+  sub /\(n >> (\d+)\) as u64/ => /#[verifier::truncate] ((n >> \1) as u64)/
   sub /let low = n as u64;/ => /let low = #[verifier::truncate] (n as u64);/
-  sub /let s = \(d as u128\)\.wrapping_sub\(r\)\.wrapping_sub\(1\) as i128 >> 127;/ => /let x = (d as u128).wrapping_sub(r).wrapping_sub(1); let s = #[verifier::truncate] (x as i128) >> 127;/
-  sub /carry = \(s & 1\) as u64;/ => /carry = #[verifier::truncate] ((s & 1) as u64);/
-  sub /r -= \(d as u128\) & s as u128;/ => /let m = #[verifier::truncate] (s as u128); proof { lemma_smask(d, r, x, s, m, carry); } r -= (d as u128) & m;/
+  sub /let s = (.*?) as i128 >> (\d+);/ => /let x = \1; let s = #[verifier::truncate] (x as i128) >> \2;/
+  sub /carry = \((.*?)\) as u64;/ => /carry = #[verifier::truncate] ((\1) as u64);/
+  sub /r -= (.*?) & s as u128;/ => /let m = #[verifier::truncate] (s as u128); proof { lemma_smask(d, r, x, s, m, carry); } r -= \1 & m;/
   spec <<<
     requires d >= 2, d_ctlz == u64_leading_zeros(d)
     ensures ret.0 as nat == n as nat / d as nat, ret.1 as nat == n as nat % d as nat
@@ -608,7 +608,7 @@ fn div128::slow_u128_divrem
         if d_ctlz == 63 { assert(pow2(1) == 2); assert(false); }
     }
 >>>
-  after /let mut carry: u64 = 0;/ <<<
+  after /let mut carry: u64 = \d+;/ <<<
     let ghost mut qq: nat = 0;
     proof { lemma_sinit(n, d, d_ctlz, high, sr, q, r); }
 >>>
@@ -617,7 +617,7 @@ fn div128::slow_u128_divrem
             sinv(n as nat, d as nat, (sr - i) as nat, q as nat, r as nat, carry as nat, qq),
         decreases sr - i
 >>>
-  before /r = \(r << 1\) \| \(q >> 127\);/ <<<
+  before /r = \(r [^;]*;/ <<<
         let ghost top = q >> 127;
         proof {
             lemma2_to64(); lemma_p127();
@@ -630,10 +630,10 @@ fn div128::slow_u128_divrem
             assert(((q << 1) | (carry as u128)) == (q % 0x8000_0000_0000_0000_0000_0000_0000_0000u128) * 2 + (carry as u128)) by(bit_vector) requires carry <= 1u64;
         }
 >>>
-  after /r -= \(d as u128\) & m;/ <<<
+  after /r -= [^;]* & m;/ <<<
         proof { qq = 2 * qq + carry as nat; }
 >>>
-  before /\(\(q << 1\) \| carry as u128, r as u64\)/ <<<
+  before /\([^;{}]*, r as u64\)\s*\}\s*$/ <<<
     proof {
         lemma2_to64(); lemma_p127();
         assert(pow2(0) == 1);
